@@ -1,21 +1,61 @@
 /-
 C03.4, concrete side: mask lengths are weakly monotone under nesting in the family of ranges
-`famOf S` of a well-formed subnet list — a range inside another one is at least as long.
+`famF S` of a well-formed subnet list — a range inside another one is at least as long —, with one
+harmless exception (`RngMonoW`): the implicit IPv4 null range (mask length 0) inside a declared
+IPv6 block that lies across `afterIPv4`.
 -/
 import DnsVerif.Proofs.LpmFamWF
+import DnsVerif.Proofs.LpmRdb
 
 namespace DnsVerif.Lpm
 open DnsVerif DnsVerif.Rearr DnsVerif.Spec
 
-/-- a range of `famOf S` that lies inside another one carries a mask at least as long -/
-theorem famOf_mono {S : List SubnetDecl} (h : SubsWF S) :
-    ∀ R ∈ famOf S, ∀ R' ∈ famOf S, R.sub R' → R'.len ≤ R.len := by
-  intro R hR R' hR' hsub
-  rcases (mem_famOf h).1 hR with ⟨s, hs, rfl⟩ | ⟨s, hs, h0, rfl⟩ | ⟨rfl, n4⟩ | ⟨rfl | rfl, n6⟩ <;>
-  rcases (mem_famOf h).1 hR' with ⟨s', hs', rfl⟩ | ⟨s', hs', h0', rfl⟩ | ⟨rfl, n4'⟩ |
-      ⟨rfl | rfl, n6'⟩ <;>
-    (fam_facts
-     simp only [Rng.sub, blk, half, R4, R6a, R6b, TOP_eq, afterIPv4_eq, firstIPv4_eq] at hsub ⊢
-     omega)
+set_option linter.unusedSimpArgs false
+
+/-- the only exception to monotonicity is the implicit IPv4 null range inside a block across
+`afterIPv4` -/
+theorem exc_is_R4 {S : List SubnetDecl} (h : SubsWF S) {E : Rng} (hE : E ∈ famF S)
+    (hexc : IsExc (famF S) E) :
+    E = R4 ∧ (∀ s ∈ S, ¬ (s.net = firstIPv4 ∧ s.ones = 96)) ∧ ¬ NoStr S := by
+  obtain ⟨R', hR', hsub, hlt⟩ := hexc
+  rcases (mem_famF h).1 hE with ⟨s, hs, rfl⟩ | ⟨⟨s, hs, h0, rfl⟩, ns⟩ | ⟨rfl, n4⟩ | ⟨rfl, n6⟩ |
+      ⟨rfl, n6, ns⟩ <;>
+  rcases (mem_famF h).1 hR' with ⟨s', hs', rfl⟩ | ⟨⟨s', hs', h0', rfl⟩, ns'⟩ | ⟨rfl, n4'⟩ | ⟨rfl, n6'⟩ |
+      ⟨rfl, n6', ns'⟩ <;>
+    first
+    | (exfalso
+       fam_facts
+       simp only [Rng.sub, blk, half, R4, R6a, R6b, TOP_eq, afterIPv4_eq, firstIPv4_eq] at hsub hlt
+       omega)
+    | (refine ⟨rfl, n4, fun ns => ?_⟩
+       fam_facts
+       simp only [Rng.sub, blk, half, R4, R6a, R6b, TOP_eq, afterIPv4_eq, firstIPv4_eq] at hsub hlt
+       omega)
+
+theorem famF_monoW {S : List SubnetDecl} (h : SubsWF S) : RngMonoW (famF S) := by
+  constructor
+  · intro E hE hexc
+    rw [(exc_is_R4 h hE hexc).1]; rfl
+  · intro E hE hexc X hX hsub hhi
+    obtain ⟨rfl, n4, hstr⟩ := exc_is_R4 h hE hexc
+    rcases (mem_famF h).1 hX with ⟨s, hs, rfl⟩ | ⟨⟨s, hs, h0, rfl⟩, ns⟩ | ⟨rfl, n4'⟩ | ⟨rfl, n6⟩ |
+        ⟨rfl, n6, ns⟩ <;>
+      first
+      | rfl
+      | (exfalso
+         fam_facts
+         simp only [Rng.sub, blk, half, R4, R6a, R6b, TOP_eq, afterIPv4_eq, firstIPv4_eq] at hsub hhi
+         omega)
+  · intro E hE hexc X hX hlo
+    obtain ⟨rfl, n4, hstr⟩ := exc_is_R4 h hE hexc
+    rcases (mem_famF h).1 hX with ⟨s, hs, rfl⟩ | ⟨⟨s, hs, h0, rfl⟩, ns⟩ | ⟨rfl, n4'⟩ | ⟨rfl, n6⟩ |
+        ⟨rfl, n6, ns⟩ <;>
+      first
+      | exact absurd ns hstr
+      | (fam_facts
+         simp only [blk, half, R4, R6a, R6b, TOP_eq, afterIPv4_eq, firstIPv4_eq] at hlo ⊢
+         omega)
+  · intro E hE hexc E' hE' hexc' _
+    rw [(exc_is_R4 h hE hexc).1, (exc_is_R4 h hE' hexc').1]
 
 end DnsVerif.Lpm
